@@ -2,7 +2,21 @@
 from engine_base import Engine, _sections
 
 
+_memo = {}
+
+
 def _parse_case(case):
+    hit = _memo.get(case)
+    if hit is not None:
+        return hit
+    if len(_memo) > 4:
+        _memo.clear()
+    res = _parse_case_uncached(case)
+    _memo[case] = res
+    return res
+
+
+def _parse_case_uncached(case):
     sec = _sections(case)
     defs = []
     for w in sec.get("TASKS", "").split():
@@ -53,12 +67,13 @@ class Graph(Engine):
         return hashlib.sha1(_show(defs, req, fail, "0").encode()).hexdigest()[:16]
 
     def nontrivial_key(self, prop, rec):
-        # distinct (table, request, failing set); the repetition counter does not make a case distinct.
-        # non-trivial = at least two tasks defined and a non-empty request
+        # distinct (dependency graph, request, failing set): the repetition counter and the order in which definitions
+        # and dependencies are written do not make a case distinct. non-trivial = ≥ 2 tasks defined, non-empty request
         defs, req, fail, _ = _parse_case(rec[0])
         if len(defs) < 2 or not req:
             return None
-        return _show(defs, req, fail, "0")
+        canon = sorted((n, sorted(d)) for n, d in defs)
+        return _show(canon, req, sorted(fail), "0")
 
     def histogram(self, prop, rec):
         defs, req, fail, _ = _parse_case(rec[0])
